@@ -5,7 +5,7 @@ from __future__ import annotations
 import ast
 
 from sa.cfg import CFG, G_EXC, N, find_path, fmt_path, reachable, reaches
-from sa.db import AnalysisError, FuncInfo, bind_args, dotted, src, walk_local
+from sa.db import AnalysisError, FuncInfo, ancestors, bind_args, dotted, src, walk_local
 from sa.flow import defs_reaching, reaching_defs
 from sa.model import contains, enclosing, execute_impl_funcs, is_user_func_call, superstep_funcs
 from sa.variants import Variant, chain, replace_once, sub_first, sub_once
@@ -24,6 +24,7 @@ EXPLANATION = (
     "so a user's on_missing='error' cannot replace the node's exception. (R6) no function under runners/ cancels a task or applies a time-out (the CancelledError/TimeoutError this injects would compete with the node's own exception for 'first error of the step' and is not an Exception the templates unwrap). R2 also requires the carrier's constructor to be total (str(cause) and attribute stores only); R3 evaluates the result-application loop under 'the result is an exception' as a valuation of that atom, so a second failure of the same step can never be unpacked as data."
     " R3 also requires, for the async step, that the loop applying the gathered results is never left early (no raise/break/return inside it): gather waits for all siblings, so the partial state holds each one's outputs wherever the failing node sits in the ready order."
     " R1 also treats a handler around the consumption of what a node function returned (list(result), iteration, await) as a handler of node code, and allows replacing the handled exception by its __cause__ only where it is the internal carrier; R2 requires the carrier to be unwrapped by presence of a cause, not by its truth value."
+    " R3 also requires that the run state only grows: no function of the runners removes a value or a version from a GraphState (a value completed in an earlier step by another producer of the same name must stay in the partial results). R1 also requires that a coroutine which runs a user's sync function catches StopIteration at the call (PEP 479 replaces it by RuntimeError when it leaves the coroutine) — open finding F44."
 )
 NOT_DECIDED = "That partial values are the correct values (a statement about computed data); which of several same-step failures is reported first is decided under C02."
 
@@ -416,6 +417,7 @@ def run(ctx) -> None:
                 rep.add("C11.R3", f"{ch.qname}:returns-after-success", not bad, f"{ch.module.rel}:{ch.lineno}", "returns outputs only after the executor returned normally or a cache hit" if not bad else "can return outputs although the executor did not return normally")
 
     check_state_only_grows(ctx, "C11.R3")
+    check_stop_iteration_kept(ctx, "C11.R1", reach)
 
     # ---- R4 ---------------------------------------------------------------
     run_map = set(template_methods(db, "run") + template_methods(db, "map"))
@@ -452,6 +454,36 @@ def run(ctx) -> None:
                     rep.add("C11.R4", inst, True, f"{f.module.rel}:{n.lineno}", "re-raises an exception object taken from the gathered results")
                 else:
                     rep.bad("C11.R4", inst, f"{f.module.rel}:{n.lineno}", "unrecognised raise form on the map error path")
+
+
+def check_stop_iteration_kept(ctx, rule: str, reach: set[FuncInfo]) -> None:
+    """PEP 479: a StopIteration that leaves a coroutine frame is replaced by RuntimeError('coroutine raised
+    StopIteration'). A coroutine that calls a user's *sync* function directly (or a sync helper that does) must therefore
+    catch StopIteration at the call and hand the object on by other means — else the caller sees a RuntimeError, not
+    the exception the node raised."""
+    db, rep = ctx.db, ctx.rep
+    n = 0
+    for f in db.funcs_in("runners.async_.executors"):
+        if not f.is_async:
+            continue
+        sites = []
+        for c in db.calls_in(f):
+            if isinstance(getattr(c, "_parent", None), ast.Await):
+                continue
+            if is_user_func_call(db, c, f) or any(cal.func is not None and not cal.func.is_async and cal.func in reach for cal in db.resolve_call(c, f)):
+                sites.append(c)
+        if not sites:
+            continue
+        n += 1
+        if "interrupt" in f.module.name:
+            # reasoned exemption: a failing interrupt handler is re-raised as RuntimeError("Handler for InterruptNode ... failed")
+            # by design (the executor's own 'except Exception' around the awaited handler call) — whatever it raised
+            rep.ok(rule, f"{f.qname}:stop-iteration-kept", f.loc(), "interrupt handler failures are re-raised as RuntimeError by design; the conversion changes nothing the caller can see")
+            continue
+        unguarded = [c for c in sites if not any(isinstance(a, ast.Try) and any(contains(st, c) for st in a.body) and any(h.type is not None and "StopIteration" in src(h.type) for h in a.handlers) for a in ancestors(c))]
+        rep.add(rule, f"{f.qname}:stop-iteration-kept", not unguarded, f"{f.module.rel}:{(unguarded[0] if unguarded else f.node).lineno}", "a StopIteration raised by the user's sync function is caught inside the coroutine" if not unguarded else f"'{src(unguarded[0])[:50]}' runs a user's sync function inside 'async def {f.name}' without catching StopIteration: when the node raises it (a bare next() on an exhausted iterator), Python replaces it by RuntimeError('coroutine raised StopIteration') as it leaves the coroutine — AsyncRunner surfaces a RuntimeError where SyncRunner surfaces the node's own StopIteration")
+    if n < 4:
+        raise AnalysisError(f"only {n} async executor coroutine(s) that run a sync user function found")
 
 
 _REMOVALS = ("pop", "popitem", "clear")
